@@ -34,7 +34,7 @@ def run(res, work, tier, seed):
     vlib.run_vh(["c12", "-out", out, "-seed", seed, "-tier", tier], timeout=3000)
     meta = vlib.read_meta(out)
     trace = os.path.join(out, "trace.ndjson")
-    fails, r = vlib.tlc_trace(out, "M3BatchingTrace.tla", "M3BatchingTrace.cfg", trace, meta["events"], timeout=3000)
+    fails, r = vlib.tlc_trace(out, "M3BatchingTrace.tla", "M3BatchingTrace.cfg", trace, meta["events"], timeout=3000, xss=True)
     if r["violated"] or not r["consumed"]:
         raise vlib.Infra("M3BatchingTrace did not consume the trace: %s\n%s" % (r["violated"], r["out"][-3000:]))
     res.add_trace_run("M3BatchingTrace", r, meta["cases"], meta["events"])
